@@ -140,6 +140,33 @@ def main():
         distinct += d
         drivers[name] = info
 
+    # ---- (4) the same drivers with every debug / verbosity / trace switch of the library on (switches are configuration too;
+    #          their code paths index the same tables).  The harness points std::cerr/std::clog at /dev/null.
+    denv = dict(env)
+    denv.update({"VERIF_DEBUG_FLAGS": "1", "BXDECAY0_TRACE_BB": "1", "BXDECAY0_TRACE_GAUSS": "1", "BXDECAY0_TRACE_GENBBSUB": "1",
+                 "BXDECAY0_TRACE_FE12": "1", "BXDECAY0_TRACE_FERMI": "1", "BXDECAY0_TRACES": "1"})
+    dl = [l for l in lines if l.startswith("B ")][:: (6 if quick else 1)]
+    dcells = [l for l in lines if l.startswith("D ")]
+    dl += dcells[:: (40 if quick else 6)]
+    gl = ["D %s 0 %d 0 4.3 0 4.3 0 0 0.003 0" % (nuc, mode) for nuc in ("Se82", "Mo100", "Cd116", "Nd150") for mode in (21, 22, 23, 24)]
+    dl += gl[:: (4 if quick else 1)]
+    exe, drecs, dfails = genmon.run_specs("asan", dl, chk.seed, 40 if quick else 400, 2, True, extra_env=denv, deep_events=2000 if quick else 50000)
+    for shard, rc, err in dfails:
+        report(chk, "gen_monitor(debug switches on)", rc, err, "shard %d" % shard)
+    nd_ = sum(r.get("events", 0) for r in drecs)
+    events += nd_
+    drivers["gen_monitor(debug switches on)"] = {"configurations": len(drecs), "events": nd_}
+    chk.require(len(drecs) >= 0.9 * len(dl), "gen_monitor (debug switches on) reported %d of %d configurations" % (len(drecs), len(dl)))
+    for name in ("c10", "c14"):
+        try:
+            m = importlib.import_module("checks." + name)
+        except ImportError:
+            continue
+        if hasattr(m, "run_under"):
+            n, d, info = m.run_under(chk, "asan", denv, True, report)
+            events += n
+            drivers[name + "(debug switches on)"] = info
+
     chk.require(active, "sanitizer runtime not active")
     chk.require(events >= 10000, "too few events generated under the sanitizers (%d)" % events)
     chk.coverage.update({
